@@ -13,7 +13,7 @@
 ##############################################################################
 """Data Chunk Receiver"""
 
-from waitress.rfc7230 import CHUNK_EXT_RE, ONLY_HEXDIG_RE
+from waitress.rfc7230 import CHUNK_EXT_RE, HEADER_FIELD_RE, ONLY_HEXDIG_RE
 from waitress.utilities import BadRequest, find_double_newline
 
 
@@ -185,6 +185,11 @@ class ChunkedReceiver:
                     # Finished the trailer.
                     self.completed = True
                     self.trailer = trailer[:pos]
+
+                    # trailer-section = *( field-line CRLF )
+                    for line in self.trailer[:-4].split(b"\r\n"):
+                        if self.error is None and not HEADER_FIELD_RE.match(line):
+                            self.error = BadRequest("Invalid trailer line")
 
                     return orig_size - (len(trailer) - pos)
 
